@@ -106,3 +106,30 @@ Fixpoint conn_run (c : cstate) (streams : list (list Z * bool)) : cstate * list 
       let '(c2, stops) := conn_run c1 r in (c2, stop :: stops)
     end
   end.
+
+(** * The first frame of a request stream (server_conn.go RawServerConn.handleRequestStream, up
+    to the QPACK boundary): it must be a HEADERS frame whose block arrives completely and is not
+    larger than the header limit. *)
+Inductive req_outcome :=
+| RParked                     (* the stream is still open and more bytes are awaited *)
+| RReset (code : Z)           (* CancelRead + CancelWrite with this code (H3_REQUEST_INCOMPLETE) *)
+| RTooLarge                   (* CancelRead(H3_EXCESSIVE_LOAD) and a 431 response *)
+| RAccepted (block : list Z)  (* the header block is handed to QPACK / requestFromHeaders *)
+| RConnClosed.                (* the connection was closed *)
+
+Definition request_stream (c : cstate) (data : list Z) (fin : bool) (maxHdr : Z) : cstate * req_outcome :=
+  let s := mkSrc data [] (if fin then EEOF else EBlocked) false in
+  match parse_next (fuel_of s) s (c_closed c) with
+  | (inl e, _, cl) =>
+    let c1 := c_set_closed c cl in
+    if is_blocked e then (c1, RParked)
+    else match cl with Some _ => (c1, RConnClosed) | None => (c1, RReset h3ErrCodeRequestIncomplete) end
+  | (inr (FHeaders l _), s', cl) =>
+    let c1 := c_set_closed c cl in
+    if l >? maxHdr then (c1, RTooLarge)
+    else match read_full (fuel_of s') s' l [] with
+         | (inl e, _) => if is_blocked e then (c1, RParked) else (c1, RReset h3ErrCodeRequestIncomplete)
+         | (inr blk, _) => (c1, RAccepted blk)
+         end
+  | (inr _, _, cl) => (c_close (c_set_closed c cl) h3ErrCodeFrameUnexpected, RConnClosed)
+  end.
